@@ -153,6 +153,11 @@ pub mod crypto {
             pub closed spec fn spec_verify(self, msg: Seq<u8>, sig: Seq<u8>) -> bool {
                 exists|s: p256::ecdsa::Signature| der(s) == sig && ecdsa_ok(self.0, msg, s)
             }
+            // C15 (not malleable): an accepted signature is the canonical one of the pair (r, s) / (r, n - s), so that
+            // nobody can present the same block under a second identifier (ed25519: strict verification above)
+            pub closed spec fn spec_canonical(sig: Seq<u8>) -> bool {
+                exists|s: p256::ecdsa::Signature| der(s) == sig && p256::ecdsa::low_s(s)
+            }
             pub closed spec fn spec_decodes(self, bytes: Seq<u8>) -> bool { p256::ecdsa::sec1_decodes(bytes, self.0) }
             pub broadcast proof fn lemma_bytes_len(self) ensures #[trigger] self.spec_bytes().len() == 33 {}
             pub broadcast proof fn lemma_bytes_inj(self, o: PublicKey)
@@ -172,6 +177,7 @@ pub mod crypto {
             //@end
             //@extract biscuit-auth/src/crypto/p256.rs :: impl PublicKey :: fn verify_signature
             //@ ensures ecdsa: r is Ok ==> self.spec_verify(data@, signature.0@)
+            //@ ensures canonical: r is Ok ==> Self::spec_canonical(signature.0@)
             //@end
         }
         impl PrivateKey {
